@@ -5,7 +5,7 @@ import json, sys, re
 RULES = {
  "C04": [(r"Bit\(|Neg\(Bit|BIT_XOR|guar:1\b|guar:10|guar:12", "arithmetic Negative treated as bitwise NOT by the simplifier (is_negative_of rules / distribute_negation)", "datafusion/optimizer/src/simplify_expressions/{expr_simplifier.rs,utils.rs}", "existing unit tests assert the wrong values, so a repair would have to edit them"),
          (r"TryCast|TRY_CAST", "comparison cast-unwrapping applied to TRY_CAST", "datafusion/optimizer/src/simplify_expressions/unwrap_cast.rs (+ physical simplifier)", "existing unit tests use try_cast on fallible casts"),
-         (r"AndOr\(In|AndOr\(Not,Regex|NOT IN", "IN-list set algebra in the simplifier ignores NULL", "datafusion/optimizer/src/simplify_expressions/expr_simplifier.rs (inlist_intersection / inlist_except)", "existing unit tests / plan expectations pin the current rewrite"),
+         (r"AndOr\(In|AndOr\(Not,Regex|NOT IN| IN \(", "IN-list set algebra in the simplifier ignores NULL", "datafusion/optimizer/src/simplify_expressions/expr_simplifier.rs (inlist_intersection / inlist_except)", "existing unit tests / plan expectations pin the current rewrite"),
          (r"^ref\||IN \(1\.5, 0\.0\)", "float IN lists compare by bits (-0.0 vs 0.0) while '=' normalises signed zero", "datafusion/physical-expr/src/expressions/in_list", "unit tests pin bit comparison")],
  "C33": [(r".*", "float IN lists and CASE literal lookup compare by bits (-0.0 vs 0.0) while '=' normalises signed zero", "datafusion/physical-expr/src/expressions/{in_list,case}", "unit tests pin bit comparison")],
  "C47": [(r"Timestamp", "timestamp literal narrowing in try_cast_literal_to_type truncates (CAST(x AS Timestamp(ms)) = -1ms becomes x = 0s)", "datafusion/expr-common/src/casts.rs", "documented as allowed; tests pin truncation"),
@@ -30,4 +30,9 @@ def merge(pid, default=None):
     json.dump(k, open('/verif/known_findings.json', 'w'), indent=1)
     print(pid, "added", n)
 if __name__ == "__main__":
-    for pid in sys.argv[1:]: merge(pid)
+    # usage: adopt_merge.py Cxx [Cyy ...]   or   adopt_merge.py Cxx --default "<cause>" "<where>" "<why not repaired>"
+    if "--default" in sys.argv:
+        i = sys.argv.index("--default")
+        merge(sys.argv[1], (r".*", sys.argv[i+1], sys.argv[i+2], sys.argv[i+3]))
+    else:
+        for pid in sys.argv[1:]: merge(pid)
